@@ -352,7 +352,7 @@ type parResult struct {
 
 // parGame plays one scripted game on one engine and returns what every search
 // reported. noCounters: call Go the way the UCI driver does.
-func parGame(root Root, moves []string, reqs []Limits, tt int, noCounters bool, startGate <-chan struct{}) (out []parResult, err error) {
+func parGame(root Root, moves []string, reqs []Limits, tt int, noCounters, withStop bool, startGate <-chan struct{}) (out []parResult, err error) {
 	defer func() {
 		if r := recover(); r != nil {
 			err = fmt.Errorf("panic: %v", r)
@@ -389,7 +389,17 @@ func parGame(root Root, moves []string, reqs []Limits, tt int, noCounters bool, 
 		if lim.SoftNodes > 0 {
 			opts = append(opts, search.WithSoftNodes(lim.SoftNodes))
 		}
+		var stop chan struct{}
+		if withStop {
+			// the way the UCI driver calls it: a stop channel per search, closed
+			// right after the search has returned, the next search following at once
+			stop = make(chan struct{})
+			opts = append(opts, search.WithStop(stop))
+		}
 		sc, mv, pm := eng.Go(b, opts...)
+		if stop != nil {
+			close(stop)
+		}
 		out = append(out, parResult{int(sc), mv.String(), pm.String(), cnt.Nodes, reportLines(rec.lines)})
 		if i < len(moves) {
 			m, err := ref.ParseMove(moves[i])
@@ -442,7 +452,7 @@ func TestParallelLeg(t *testing.T) {
 			case 0:
 				lim.Depth = 1 + rng.IntN(5)
 			case 1:
-				lim.Nodes = pick(rng, []int{50, 500, 3000})
+				lim.Nodes = pick(rng, []int{1, 2, 50, 500, 3000})
 			case 2:
 				lim.SoftNodes = pick(rng, []int{100, 1500})
 			}
@@ -463,7 +473,11 @@ func TestParallelLeg(t *testing.T) {
 			tt = pick(rng, []int{32 << 20, 64 << 20})
 		}
 		noCounters := rng.IntN(2) == 0
-		want, err := parGame(root, moves, reqs, tt, noCounters, nil)
+		withStop := rng.IntN(2) == 0
+		if withStop {
+			sum.Stats["fault_stop_channel_closed_after_return"] += int64(len(reqs))
+		}
+		want, err := parGame(root, moves, reqs, tt, noCounters, withStop, nil)
 		if err != nil {
 			sum.Violations = append(sum.Violations, Violation{Property: "C08", Kind: "panic", Detail: "[parallel leg] reference game: " + err.Error()})
 			continue
@@ -477,7 +491,7 @@ func TestParallelLeg(t *testing.T) {
 			wg.Add(1)
 			go func(e int) {
 				defer wg.Done()
-				got[e], errs[e] = parGame(root, moves, reqs, tt, noCounters, gate)
+				got[e], errs[e] = parGame(root, moves, reqs, tt, noCounters, withStop, gate)
 			}(e)
 		}
 		close(gate)
